@@ -31,6 +31,44 @@ type Uni struct {
 	// ObsSwitch: the B blocks observed on ONE node (one module instance, one database) that first applied common+A and then
 	// reverted the A blocks with their stored diffs — a chain switch. Must equal the tail of ObsB (fresh node).
 	ObsSwitch []Obs `json:"obsSwitch"`
+	// Block identity (C01 round 4): an opaque id per block, never shown to liskbft. Two blocks with equal BFT fields and
+	// different ids are different blocks (a same-tuple double forge). Missing on replayed inputs: synthesized by position.
+	IdsC []uint64 `json:"idsC"`
+	IdsA []uint64 `json:"idsA"`
+	IdsB []uint64 `json:"idsB"`
+	// Twins: number of same-tuple / different-id double forges placed by Byzantine validators
+	Twins int `json:"twins"`
+}
+
+// fillIds gives every block an id when the input carries none (corpus / replay): distinct by branch and position.
+func fillIds(u *Uni) {
+	if u.IdsC == nil {
+		u.IdsC = []uint64{}
+	}
+	if u.IdsA == nil {
+		u.IdsA = []uint64{}
+	}
+	if u.IdsB == nil {
+		u.IdsB = []uint64{}
+	}
+	if len(u.IdsC) != len(u.Common) {
+		u.IdsC = make([]uint64, len(u.Common))
+		for i := range u.Common {
+			u.IdsC[i] = uint64(i + 1)
+		}
+	}
+	if len(u.IdsA) != len(u.A) {
+		u.IdsA = make([]uint64, len(u.A))
+		for i := range u.A {
+			u.IdsA[i] = uint64(1000000 + i)
+		}
+	}
+	if len(u.IdsB) != len(u.B) {
+		u.IdsB = make([]uint64, len(u.B))
+		for i := range u.B {
+			u.IdsB[i] = uint64(2000000 + i)
+		}
+	}
 }
 
 func runUni(u *Uni) {
@@ -124,13 +162,34 @@ func gen(r *hx.Rng) Uni {
 		}
 		return c.Obs[len(c.Obs)-1].Heights[0], true
 	}
-	extend := func(prefix []Block, branch *[]Block, allowChange bool) {
+	nextID := uint64(0)
+	extend := func(prefix []Block, branch *[]Block, ids *[]uint64, other []Block, allowChange bool) {
 		full := append(append([]Block{}, prefix...), *branch...)
 		mhp, ok := mhpOf(full)
 		if !ok {
 			return
 		}
 		h := uint32(len(full) + 1)
+		// same-tuple / different-id double forge: a Byzantine validator re-forges, on this branch, the block it generated at the
+		// same height on the other branch with EXACTLY the same BFT fields (another payload, hence another id)
+		if len(other) > len(*branch) && r.Intn(2) == 0 {
+			tw := other[len(*branch)]
+			if byz[tw.Gen] && tw.MHP == mhp && tw.H == h {
+				c := Case{Batch: batch, GH: 0, Init: u.Init, Blocks: append(append([]Block{}, full...), tw), Commit: true}
+				RunCase(&c)
+				if len(c.Obs) == len(full)+1 && c.Obs[len(full)].Err == 0 && !c.Obs[len(full)].Contra {
+					*branch = append(*branch, tw)
+					nextID++
+					*ids = append(*ids, nextID)
+					u.Twins++
+					signed[tw.Gen] = append(signed[tw.Gen], hd{h: tw.H, gen: tw.Gen, mhg: tw.MHG, mhp: tw.MHP})
+					if maxForged[tw.Gen] < h {
+						maxForged[tw.Gen] = h
+					}
+					return
+				}
+			}
+		}
 		for try := 0; try < 2*n; try++ {
 			v := cur[r.Intn(len(cur))].A
 			if r.Intn(3) != 0 { // prefer round robin
@@ -194,6 +253,8 @@ func gen(r *hx.Rng) Uni {
 				continue
 			}
 			*branch = append(*branch, b)
+			nextID++
+			*ids = append(*ids, nextID)
 			if b.Chg != nil && !allowChange {
 				cur = append([]Val{}, b.Chg.Vals...)
 			}
@@ -209,7 +270,7 @@ func gen(r *hx.Rng) Uni {
 		ncommon = batch + r.Intn(4*batch) // long enough for pruning to matter
 	}
 	for i := 0; i < ncommon; i++ {
-		extend(nil, &u.Common, false)
+		extend(nil, &u.Common, &u.IdsC, nil, false)
 	}
 	steps := 4 + r.Intn(9*batch)
 	changes := r.Intn(4) == 0
@@ -220,9 +281,9 @@ func gen(r *hx.Rng) Uni {
 			onA = !onA
 		}
 		if onA {
-			extend(u.Common, &u.A, changes)
+			extend(u.Common, &u.A, &u.IdsA, u.B, changes)
 		} else {
-			extend(u.Common, &u.B, changes)
+			extend(u.Common, &u.B, &u.IdsB, u.A, changes)
 		}
 	}
 	if u.Common == nil {
@@ -234,6 +295,7 @@ func gen(r *hx.Rng) Uni {
 	if u.B == nil {
 		u.B = []Block{}
 	}
+	fillIds(&u)
 	return u
 }
 
@@ -258,6 +320,7 @@ func main() {
 				panic(err)
 			}
 			u.K = "uni"
+			fillIds(&u)
 			runUni(&u)
 			o.Put(u)
 		}
